@@ -410,7 +410,7 @@ PROPERTY_REGIONS = {
                                                                          "client::client::Client::create_new_session")),
     "C14": ((SS + "start_client", SS + "close", SS + "recv_loop", SS + "process_stream_data"), ("HeartRequest", "HeartResponse"), (SS + "close",)),
     "C15": (("client::udp_client::", "server::udp_proxy::"), (), ("session::stream_reader::StreamReader::buffer_len", "session::stream_reader::StreamReader::is_eof")),
-    "C16": (("client::socks5::",), (), ()),
+    "C16": (("client::socks5::",), (), (SS + "close",)),      # "ends that connection only": who may close the session that other connections' tunnels run on
     "C17": (("client::http_proxy::",), (), ()),
     "C18": (("util::cert_reloader::", "server::server::Server::listen", "util::tls::"), (), ("util::cert_reloader::CertReloader::reload",
             "util::tls::create_server_config", "util::tls::create_server_config_from_files")),      # who may ask for a generated (self-signed) certificate: the start-up code of the binary, never a loader or reloader
